@@ -195,6 +195,9 @@ def run(pid, tier, seed, labels, terminal_labels, e1_cfgs, e1_invariants, e1_pro
         v.cov['traces_validated_against_impl'] += ntr
         v.cov['evaluations'] += nst
         v.cov['sequencing_traces'] = ntr
+        for key in ('quiescent_steps_evaluated', 'lost_process_obligations'):
+            if key in sv.cov:
+                v.cov[key] = v.cov.get(key, 0) + sv.cov[key]
     v.cov['distinct_nontrivial'] = v.cov['traces_validated_against_impl']
     v.cov['rule'] = ('E1: TLC exhausts Cluster.tla for each listed configuration within its bounds (rounds, fault '
                      'budgets, slow FIFO set); E2/E3a: each replayed model behaviour / seeded random schedule / '
